@@ -60,6 +60,18 @@ def flags(ctx, crate, rec):
         ctx.report(clause, "recur:full-only-under-inner-threshold", "min" in th,
                    "push(depth, hash, true) is reached only after `shs <= min` succeeded" if "min" in th else "push(.., true) is not guarded by the INNER threshold (guards: %s): a cell can be flagged fully covered while part of it is outside the cone" % sorted(th), at=p.at, kind="N",
                    sample={"full_push_guards": sorted(th)})
+    # the sentinel used for "no cell of this depth can be inside the cone" (radius < bound) must make
+    # the full test unsatisfiable: shs is a sum of squares, so `shs <= 0.0` holds for a cone centred
+    # exactly on a cell centre
+    sent = getattr(ctx, "extra_sentinel", None)
+    if sent is not None and full:
+        ops_full = set()
+        for op, a, c, pos in cmp_facts(full[0].facts):
+            if pos and a == rec.shs and c[0] == 'fld' and c[2] == rec.fmin: ops_full.add(op)
+        bad = [v for v in sent if v is not None and ((v >= 0 and "le" in ops_full) or (v > 0))]
+        ctx.report(clause, "recur:no-full-when-radius<bound", not bad,
+                   "sentinel(s) %s with test `shs %s min`: unsatisfiable since shs >= 0" % (sent, "/".join(sorted(ops_full))) if not bad else
+                   "when radius < cell bound the inner threshold is %s and the full test is `shs <= min`: a cone centred exactly on a cell centre (shs = 0) flags the whole cell fully covered although the cone is smaller than the cell" % bad, at=full[0].at, kind="N")
     for p in part:
         th = rec.threshold_of(p)
         dl = [f for f in p.facts if f[0] == 'b' and f[1][0] == 'op' and f[1][1] == 'eq' and f[2]]
@@ -123,8 +135,8 @@ def run(ctx):
     if it.ok:
         allsky(ctx, crate, rec, it)
         small_cone(ctx, crate, rec, it)
-    flags(ctx, crate, rec)
     minmax_provenance(ctx, crate, "thresholds", "thresholds")
+    flags(ctx, crate, rec)
     packed(ctx, crate)
     from rules.c15 import pack_rule
     pack_rule(ctx, crate)
